@@ -10,6 +10,7 @@ CONSTANTS
  DevKeySites = FALSE
  DevProcForgets = FALSE
  LargeN = 16
+ DevSkipVSWhenNothingToOptimise = FALSE
 INVARIANT Mark
 INVARIANT Prog
 POSTCONDITION Accepted
